@@ -1276,6 +1276,22 @@ fn all_kinds(heap: &mut Heap, t: &[&str]) -> Option<Vec<Statement>> {
         });
         i += 3 + k;
       }
+      "ic" => {
+        let v = var_name(heap, t.get(i + 1)?)?;
+        let c = if *t.get(i + 2)? == "_" { None } else { Some(var_name(heap, t[i + 2])?) };
+        let k: usize = t.get(i + 3)?.parse().ok()?;
+        let mut es = Vec::new();
+        for j in 0..k {
+          es.push(expr_of(heap, t.get(i + 4 + j)?)?);
+        }
+        body.push(Statement::Call {
+          callee: Callee::Variable(VariableName { name: v, type_: INT_32_TYPE }),
+          arguments: es,
+          return_type: INT_32_TYPE,
+          return_collector: c,
+        });
+        i += 4 + k;
+      }
       "p" | "k" => {
         let a = expr_of(heap, t.get(i + 1)?)?;
         if t[i] == "k" {
@@ -1739,6 +1755,79 @@ fn kernel_line(t: &[&str]) -> String {
         Err(_) => return "panic".to_string(),
       };
       if after[0].body.iter().any(|s| s.as_while().is_some()) { "kept".to_string() } else { "fired".to_string() }
+    }
+    "dceuse" if t.len() >= 2 => {
+      let mut heap = Heap::new();
+      let body = match all_kinds(&mut heap, &t[2..]) {
+        Some(b) => b,
+        None => return "bad-line".to_string(),
+      };
+      let ret = match expr_of(&mut heap, t[1]) {
+        Some(r) => r,
+        None => return "bad-line".to_string(),
+      };
+      let mut f = Function {
+        name: FunctionName { type_name: TypeNameId::EMPTY, fn_name: name(&mut heap, "f0") },
+        parameters: vec![name(&mut heap, "v00"), name(&mut heap, "v01")],
+        type_: Type::new_fn_unwrapped(vec![INT_32_TYPE; 2], INT_32_TYPE),
+        body,
+        return_value: ret,
+      };
+      let counter = heap.create_temp_counter();
+      verif_hooks::run_pass("dce", &mut f, &counter, &config(31));
+      let kept: Vec<String> = f
+        .body
+        .iter()
+        .filter_map(|s| match s {
+          Statement::Binary(b) => Some(b.name),
+          Statement::IsPointer { name, .. }
+          | Statement::Not { name, .. }
+          | Statement::IndexedAccess { name, .. }
+          | Statement::Cast { name, .. } => Some(*name),
+          Statement::StructInit { struct_variable_name, .. } => Some(*struct_variable_name),
+          Statement::ClosureInit { closure_variable_name, .. } => Some(*closure_variable_name),
+          _ => None,
+        })
+        .map(|n| n.as_str(&heap).to_string())
+        .collect();
+      format!("kept {}", if kept.is_empty() { "-".to_string() } else { kept.join(",") })
+    }
+    "dceloop" => {
+      // while (v00 = 0 -> v08, v01 = v07 -> v09) { <body>; v08 = v00 + 1; v09 = fresh struct }: does DCE keep v01?
+      let mut heap = Heap::new();
+      let mut body = match all_kinds(&mut heap, &t[1..]) {
+        Some(b) => b,
+        None => return "bad-line".to_string(),
+      };
+      let mut tail = all_kinds(&mut heap, &["b", "v8", "add", "v0", "i1", "st", "v9", "1", "v0"]).expect("well-formed");
+      body.append(&mut tail);
+      let lv = |heap: &mut Heap, n: &str, init: Expression, next: &str| GenenalLoopVariable {
+        name: name(heap, n),
+        type_: INT_32_TYPE,
+        initial_value: init,
+        loop_value: Expression::var_name(name(heap, next), INT_32_TYPE),
+      };
+      let v7 = Expression::var_name(name(&mut heap, "v07"), INT_32_TYPE);
+      let loop_variables = vec![lv(&mut heap, "v00", Expression::i32(0), "v08"), lv(&mut heap, "v01", v7, "v09")];
+      let r = name(&mut heap, "r");
+      let mut f = Function {
+        name: FunctionName { type_name: TypeNameId::EMPTY, fn_name: name(&mut heap, "f0") },
+        parameters: vec![name(&mut heap, "v07")],
+        type_: Type::new_fn_unwrapped(vec![INT_32_TYPE; 1], INT_32_TYPE),
+        body: vec![Statement::While {
+          loop_variables,
+          statements: body,
+          break_collector: Some(VariableName { name: r, type_: INT_32_TYPE }),
+        }],
+        return_value: Expression::var_name(r, INT_32_TYPE),
+      };
+      let counter = heap.create_temp_counter();
+      verif_hooks::run_pass("dce", &mut f, &counter, &config(31));
+      let kept = match &f.body[0] {
+        Statement::While { loop_variables, .. } => loop_variables.iter().any(|v| v.name.as_str(&heap) == "v01"),
+        _ => false,
+      };
+      if kept { "kept".to_string() } else { "dropped".to_string() }
     }
     "lvnw" => {
       // `lvnw <prefix> ~ N (name init loopvalue)*N | <body>` through the real local_value_numbering
